@@ -43,6 +43,34 @@ fn check_set(stats: &mut Stats, rng: &mut Rng, set: &Vec<P>, class: &str, n_unif
     }
 }
 
+/// a quadrilateral frame whose first edge is a cubic that crosses itself (a curl); `two`: the cubic is cut in two near its middle.
+/// Returns the path and the curl cubic
+fn curl_frame(rng: &mut Rng, two: bool) -> (P, [Coord2; 4]) {
+    use flo_curves::bezier::{BezierCurve, BezierCurveFactory, Curve};
+    let c = Coord2(rng.r(35.0, 65.0), rng.r(35.0, 65.0));
+    let r = rng.r(15.0, 30.0);
+    let a0 = rng.r(0.0, TAU);
+    let v: Vec<Coord2> = (0..4).map(|k| { let a = a0 + (k as f64 + rng.r(-0.2, 0.2)) * TAU / 4.0; c + Coord2(a.cos(), a.sin()) * r }).collect();
+    let line = |p: Coord2, q: Coord2| (p + (q - p) * 0.33, p + (q - p) * 0.66, q);
+    let (p, q) = (v[0], v[1]);
+    let d = q - p;
+    let out = { let m = (p + q) * 0.5 - c; let l = (m.0 * m.0 + m.1 * m.1).sqrt(); Coord2(m.0 / l, m.1 / l) };
+    let k = rng.r(0.9, 1.6);
+    let (c1, c2) = (p + d * k + out * (r * rng.r(0.3, 0.8)), q - d * k + out * (r * rng.r(0.3, 0.8)));
+    let mut sections = vec![];
+    if two {
+        let whole = Curve::from_points(p, (c1, c2), q);
+        let (l, rr): (Curve<Coord2>, Curve<Coord2>) = whole.subdivide(rng.r(0.35, 0.65));
+        sections.push((l.control_points().0, l.control_points().1, l.end_point()));
+        sections.push((rr.control_points().0, rr.control_points().1, q));
+    } else {
+        sections.push((c1, c2, q));
+    }
+    sections.extend([line(v[1], v[2]), line(v[2], v[3]), line(v[3], v[0])]);
+    let path: P = (p, sections);
+    (redirect(rng, &path), [p, c1, c2, q])
+}
+
 pub const STARS: [(usize, usize); 6] = [(5, 2), (7, 2), (7, 3), (8, 3), (9, 2), (9, 4)];
 
 /// a quadrilateral whose two diagonals are used as edges: crosses itself once
@@ -97,6 +125,48 @@ pub fn search(seed: u64, n: u64) {
         stats.case(&format!("curl {:?}", path), true);
         stats.count("input.curl_edge_crosses_itself");
         check_set(&mut stats, &mut rng_curl, &vec![path], "curl_edge_crosses_itself", 200, 200);
+    }
+    // the same curl drawn with TWO consecutive sections (the cubic cut in two near its middle): neither section has a loop of its own, the
+    // second one crosses back over the first - a crossing between two ADJACENT edges, away from their joint (own stream)
+    let mut rng_c2 = Rng(seed ^ 0x25EC7);
+    for _ in 0..(4 + n / 60) {
+        let (path, _) = curl_frame(&mut rng_c2, true);
+        stats.case(&format!("two-section curl {:?}", path), true);
+        stats.count("input.curl_drawn_with_two_sections");
+        check_set(&mut stats, &mut rng_c2, &vec![path], "curl_drawn_with_two_sections", 200, 200);
+    }
+    // directed search among many curls (own stream): find_self_intersection_point is asked directly, which costs microseconds, and the
+    // property is evaluated on the curls whose answer looks wrong (none, two parameters that are not a crossing, or a point pair apart)
+    let mut rng_sip = Rng(seed ^ 0x51B12);
+    let mut suspicious = 0;
+    for _ in 0..(50 * n) {
+        let (path, curl) = curl_frame(&mut rng_sip, false);
+        stats.count("curls_screened");
+        let c = flo_curves::bezier::Curve::from_points(curl[0], (curl[1], curl[2]), curl[3]);
+        // the cubic's own double point in closed form: B(t1) = B(t2), t1 != t2, gives s = t1 + t2 and p = t1 t2 from two linear equations
+        let (ca, cb, cc) = (curl[3] - curl[0] + (curl[1] - curl[2]) * 3.0, (curl[0] - curl[1] * 2.0 + curl[2]) * 3.0, (curl[1] - curl[0]) * 3.0);
+        let ab = cross(ca, cb);
+        if ab.abs() < 1e-9 { continue; }
+        let sum = -cross(ca, cc) / ab;
+        let prod = sum * sum - cross(cb, cc) / ab;
+        let disc = sum * sum - 4.0 * prod;
+        if !(disc > 0.0) { stats.count("curls_screened.no_double_point"); continue; }
+        let (u1, u2) = ((sum - disc.sqrt()) * 0.5, (sum + disc.sqrt()) * 0.5);
+        if !(u1 > 0.02 && u2 < 0.98 && u2 - u1 > 0.05) { stats.count("curls_screened.double_point_outside_or_near_ends"); continue; }
+        stats.count("curls_screened.with_double_point");
+        let dp = c.point_at_pos(u1);
+        let looks_wrong = match std::panic::catch_unwind(|| flo_curves::bezier::find_self_intersection_point(&c, ACC)) {
+            Ok(Some((t1, t2))) => { let (a, b) = (c.point_at_pos(t1), c.point_at_pos(t2)); !(dist(a, dp) <= 0.1 && dist(b, dp) <= 0.1) || !((t2 - t1).abs() >= 0.04) }
+            Ok(None) => true,
+            Err(_) => true,
+        };
+        if !looks_wrong { continue; }
+        stats.count("curls_screened.self_intersection_looks_wrong");
+        suspicious += 1;
+        if suspicious > 12 { continue; }
+        stats.case(&format!("screened curl {:?}", path), true);
+        stats.count("input.curl_edge_crosses_itself");
+        check_set(&mut stats, &mut rng_sip, &vec![path], "curl_edge_crosses_itself", 200, 200);
     }
     for (k, m) in STARS {
         for rot in [0.0, 0.1, TAU / 4.0] {
